@@ -82,6 +82,9 @@ class Sim(object):
         self._prio = {}
         self._pct_points = None
         self._same_run = 0
+        self._last_now = None
+        self._steps_at_now = 0
+        self.spin_limit = 4000
         self.time_jump_p = 0.0
         self.max_jump = 0.05
         self.aborting = False
@@ -268,6 +271,26 @@ class Sim(object):
                     return 'horizon'
                 self.now = nxt
                 continue
+            # busy-wait guard: code that polls the clock in a loop without ever blocking would freeze virtual
+            # time; after many steps at one instant let the clock move to the next pending event/deadline
+            # (computation takes time on a real machine)
+            if now == self._last_now:
+                self._steps_at_now += 1
+                if self._steps_at_now > self.spin_limit and not due:
+                    nxt = next_deadline
+                    if ev and (nxt is None or ev[0][0] < nxt):
+                        nxt = ev[0][0]
+                    if nxt is None or nxt - now > 0.05:
+                        nxt = now + 0.05          # nothing scheduled soon: a quantum of CPU time passes
+                    if nxt <= self.horizon:
+                        self.now = nxt
+                        self._steps_at_now = 0
+                        self.probe('busy_wait_time_advance')
+                        self.rec('spin-advance', '')
+                        continue
+            else:
+                self._last_now = now
+                self._steps_at_now = 0
             # canonical candidate order: last-run thread first, then creation order, env last
             last = self.last
             if last is not None and last in cands and cands[0] is not last:
@@ -286,7 +309,7 @@ class Sim(object):
                 pick = self.choose(n, lambda: self._strategy_pick(cands, n))
             if pick < len(cands):
                 t = cands[pick]
-                if t is self.last and len(cands) > 1:
+                if t is self.last and n > 1:
                     self._same_run += 1
                 else:
                     self._same_run = 0
